@@ -34,7 +34,7 @@ import (
 	"verif/checks/c07/kc"
 )
 
-const rule = "crypto-lengths: every length 0..64 (plus 65,117,118,127,128,129,256) of each byte argument (plaintext/ciphertext/digest, nonce, tag/signature, associated data, symmetric key), one argument at a time and for symmetric algorithms also every (data length x nonce length) and (data length x tag length) pair, in 3-5 content classes (zero bytes, 0xf0.. counting bytes, a valid value cut or zero-extended to the length, for CBC-HMAC a re-computed valid tag over the altered ciphertext), for every algorithm name of crypto/consts.go (+4 non-names) x 8 crypto entry points x 12 key kinds; aeskw.Wrap/Unwrap for AES-128/192/256 on every length 0..72 x 5 content classes; aescbcaead New*(key length 0..64), Seal (16-byte nonce only: a wrong-size Seal nonce is the excluded documented misuse) and Open (nonce length 0..64 x ciphertext length 0..96 x {zero tag, valid tag}); padding Pad/Unpad on every length 0..64 x every last-byte value x 12 block sizes. non-trivial = the call returned a nil error."
+const rule = "crypto-lengths: every length 0..64 (plus 65,117,118,127,128,129,256) of each byte argument (plaintext/ciphertext/digest, nonce, tag/signature, associated data, symmetric key), one argument at a time and for symmetric algorithms also every (data length x nonce length) and (data length x tag length) pair over 0..40 (thorough 0..64), in 3-5 content classes (zero bytes, 0xf0.. counting bytes, a valid value cut or zero-extended to the length, for CBC-HMAC a re-computed valid tag over the altered ciphertext), for every algorithm name of crypto/consts.go (+4 non-names) x 8 crypto entry points x 12 key kinds; aeskw.Wrap/Unwrap for AES-128/192/256 on every length 0..72 x 5 content classes; aescbcaead New*(key length 0..64), Seal (16-byte nonce only: a wrong-size Seal nonce is the excluded documented misuse) and Open (nonce length 0..64 x ciphertext length 0..96 x {zero tag, valid tag}); padding Pad/Unpad on every length 0..64 x every last-byte value x 12 block sizes. non-trivial = the call returned a nil error."
 
 var lengths = func() []int {
 	var l []int
@@ -131,7 +131,7 @@ type args struct {
 // ---- areas ---------------------------------------------------------------------
 
 func areas(thorough bool) []*guard.Area {
-	return []*guard.Area{paddingArea(), aeskwArea(), aeadArea(), cryptoArea()}
+	return []*guard.Area{paddingArea(), aeskwArea(), aeadArea(), cryptoArea(thorough)}
 }
 
 func paddingArea() *guard.Area {
@@ -371,11 +371,15 @@ var fns = []fnDef{
 	}, true},
 }
 
-func cryptoArea() *guard.Area {
+func cryptoArea(thorough bool) *guard.Area {
 	algs := kc.AllAlgs
+	pairMax := 40
+	if thorough {
+		pairMax = 64
+	}
 	return &guard.Area{
 		Name: "crypto-args", Chunks: len(algs),
-		Bound: fmt.Sprintf("%d algorithm names x 8 entry points x (10 asymmetric keys + symmetric keys of the natural size and of every length 1..64): each byte argument at every length in %v, others at their natural size; symmetric natural key: also all (data x nonce) and (data x tag) length pairs over 0..40", len(algs), "0..64,65,117,118,127,128,129,256"),
+		Bound: fmt.Sprintf("%d algorithm names x 8 entry points x (10 asymmetric keys + symmetric keys of the natural size and of every length 1..64): each byte argument at every length in %v, others at their natural size; symmetric natural key: also all (data x nonce) and (data x tag) length pairs over 0..%d", len(algs), "0..64,65,117,118,127,128,129,256", pairMax),
 		Run: func(c *guard.Ctx, ci int) {
 			alg := algs[ci]
 			fixed := fixedKeys()
@@ -468,8 +472,8 @@ func cryptoArea() *guard.Area {
 						vary("aad", func(a *args) *[]byte { return &a.aad })
 					}
 					if ki == 0 && fn.usesNonce {
-						for dl := 0; dl <= 40; dl++ {
-							for nl := 0; nl <= 40; nl++ {
+						for dl := 0; dl <= pairMax; dl++ {
+							for nl := 0; nl <= pairMax; nl++ {
 								a := base
 								a.data, a.nonce = cutTo(base.data, dl), kc.Fill(nl, 7)
 								run(fmt.Sprintf("data:len=%d x nonce:len=%d", dl, nl), a)
